@@ -860,6 +860,15 @@ class Machine:
             if not is_sym(x):
                 return [abs(x)]
             return [ite(cmp('>=', x, 0), x, neg(x))]
+        if f == 'copysign':
+            y = a[1][0]
+            if conc:
+                return [math.copysign(x, y)]
+            if not is_sym(x) and not is_sym(y):
+                return [abs(x) if y >= 0 else -abs(x)]
+            ax = ite(cmp('>=', x, 0), x, neg(x)) if is_sym(x) else abs(x)
+            # (over the reals a zero `y` counts as +0: the sign of a zero is a floating-point notion)
+            return [ite(cmp('>=', y, 0), ax, neg(ax))]
         if f == 'recip':
             if conc:
                 return [fdiv(1.0, x)]
